@@ -348,6 +348,7 @@ func (c lcCycle) enders() string {
 
 // ---------- running one case ----------
 type lcResult struct {
+	skipped               bool // the case could not be set up (no listener): judged as an empty, incomplete run
 	complete, hung, fresh bool
 	leaked                int
 	note                  string
@@ -355,6 +356,9 @@ type lcResult struct {
 }
 
 func (r lcResult) fields() Fields {
+	if r.skipped {
+		return F(false, 0, false, true, "skipped: "+r.note)
+	}
 	f := F(r.complete, r.leaked, r.hung, r.fresh, r.note)
 	for _, e := range r.ev {
 		f = append(f, []byte(e))
@@ -374,6 +378,7 @@ type lcCase struct {
 	notes   []string
 	hung    bool
 	fresh   bool
+	skipped bool
 	cancel  context.CancelFunc // of the current connection's context
 	// handler plumbing
 	connectedCh chan int        // CONNECTED handler finished for generation g
@@ -463,18 +468,24 @@ func (k *lcCase) connectCycle(i int) error {
 }
 
 func lcRunCase(sc lcScript) lcResult {
-	label := fmt.Sprintf("%d", atomic.AddInt64(&lcCaseSeq, 1))
-	var res lcResult
-	fin := make(chan struct{})
 	k := &lcCase{sc: sc, log: &lcLog{}, fresh: true,
 		connectedCh: make(chan int, 16), parkedCh: make(chan struct{}, 16),
 		emitCh: make(chan struct{}, 16), discCh: make(chan int, 16), handlerConn: make(chan error, 16)}
 	for range sc.cycles {
 		k.releaseCh = append(k.releaseCh, make(chan struct{}))
 	}
+	return lcWrap(k, k.run)
+}
+
+// lcWrap runs the body of a case under a goroutine label and a deadline, then measures what
+// is left of the library's goroutines
+func lcWrap(k *lcCase, body func(label string)) lcResult {
+	label := fmt.Sprintf("%d", atomic.AddInt64(&lcCaseSeq, 1))
+	var res lcResult
+	fin := make(chan struct{})
 	go pprof.Do(context.Background(), pprof.Labels("lc", label), func(context.Context) {
 		defer close(fin)
-		k.run(label)
+		body(label)
 	})
 	select {
 	case <-fin:
@@ -512,7 +523,10 @@ func lcRunCase(sc lcScript) lcResult {
 			time.Sleep(2 * time.Millisecond)
 		}
 	}
-	k.srv.drop()
+	if k.srv != nil {
+		k.srv.drop()
+	}
+	res.skipped = k.skipped
 	return res
 }
 
@@ -925,7 +939,12 @@ func lcChildMain() {
 		}
 		fmt.Fprintf(out, "B %s\n", in.String())
 		out.Flush()
-		obs := lcRunCase(lcParse(in)).fields()
+		var obs Fields
+		if in.S(0) == "lctcp" {
+			obs = lcRunTCP(in).fields()
+		} else {
+			obs = lcRunCase(lcParse(in)).fields()
+		}
 		fmt.Fprintf(out, "R %s | %s\n", in.String(), obs.String())
 		out.Flush()
 	}
@@ -1115,6 +1134,9 @@ func lcExec(in Fields) Fields {
 }
 
 func lcClass(in Fields) string {
+	if in.S(0) == "lctcp" {
+		return fmt.Sprintf("tcp timeout=%dms hold=%dms cycles=%d", in.I(1), in.I(2), in.I(3))
+	}
 	sc := lcParse(in)
 	if len(sc.cycles) == 0 {
 		return "empty"
